@@ -276,6 +276,7 @@ class Runner:
         self.s = self.sess.s
         self.returned = []           # futures returned by API calls, in order: (future, kind)
         self.objs = {}               # j -> Subscription / Registration object
+        self.reacted = set()         # futures that got a re-entering callback
         self._opened = False
         if FW == "aio":
             env.loop.call_exception_handler = self._loop_exc
@@ -358,6 +359,24 @@ class Runner:
                             self._loop_exc(ctx)
             else:
                 env.turn()
+        elif name == "react":
+            # ["react", j, api_op]: user code attaches to future j a callback/errback that issues api_op when it fires
+            # (the "try again" idiom); api_op: call / publish / subscribe / register / unregister
+            j, a = o[1], o[2]
+            ok_obj = j < len(self.returned) and (a[0] != "unregister" or a[1] < len(self.returned))
+            if not ok_obj:
+                self.log.append(["apiraised", "NoObject"])
+            else:
+                fut = self.returned[j][0]
+                done = bool(txaio.is_called(fut)) if FW == "tx" else fut.done()
+                if not done and j not in self.reacted:
+                    self.reacted.add(j)
+
+                    def cb(_x, a=a, j=j):
+                        self.log.append(["reenter", j])
+                        self.op(a)
+                        return None
+                    txaio.add_callbacks(fut, cb, cb)
         elif name == "inline":
             # ["inline", api_op, router_msg]: the router message is fed into onMessage from inside transport.send()
             self.t.inline = lambda r=o[2]: self.op(r)
